@@ -227,10 +227,30 @@ def check_table(ctx, files, rid="K1.table"):
             continue
         pat, field, kind, variant = e["pat"], e["field"], e["kind"], e["variant"]
         shapes = [f for f in facts.shapes(pat) if variant in f.variants]
+        sites = None
+        if not shapes:
+            # the function was merged into its former callers / a lambda was replaced by a plain loop: its required operations are looked for
+            # where the code now lives
+            merged = [f for f in facts.merged_into(pat) if variant in f.variants]
+            if merged:
+                shapes = merged
+                sites = []
+                for mp in sorted({f.pat for f in merged}):
+                    got = live[variant].get((mp, field, kind), [])
+                    if not got and field.startswith("param:"):
+                        # the object was a parameter of the vanished function; where the code lives now it is whatever the former argument was
+                        for (p2, f2, k2), v2 in live[variant].items():
+                            if p2 == mp and k2 == kind and (f2.startswith("param:") or f2.startswith("local:") or "::" not in f2):
+                                got = got + v2
+                    sites.extend(got)
+                note = "%s no longer exists; its memory-order requirements are checked in %s" % (pat, ", ".join(sorted({f.pat for f in merged}))[:160])
+                if note not in ctx.notes:
+                    ctx.notes.append(note)
         if not shapes:
             raise AnalysisBroken("K1 anchor vanished: function pattern %s (%s) is not instantiated any more" % (pat, variant))
         fn0 = shapes[0]
-        sites = live[variant].get((pat, field, kind), [])
+        if sites is None:
+            sites = live[variant].get((pat, field, kind), [])
         lo = [site_orders(s) for s in sites]
         j = 0
         matched_by = {}
